@@ -86,6 +86,9 @@ def plurality_assorters(S, I, variant):
     if exc:
         return
     S.holds("keys = winners x losers", set(r.keys()) == {"A v C", "A v D", "B v C", "B v D"})
+    tests_ = [a_.attrs.get("test") for a_ in r.values()]
+    S.holds("every assertion has a test object of its own (the bound u is installed per assertion, each with its own margin)",
+            all(t_ is not None for t_ in tests_) and len({id(t_) for t_ in tests_}) == len(tests_))
     card = rec_card(S, "card", sym_cvr(I, "card", {"con": cands, "other": ["A", "C"]}))
     for w in ("A", "B"):
         for l in ("C", "D"):
@@ -247,8 +250,9 @@ def find_margin_from_tally(S, I, variant):
         asn = r["W v L"]
     else:
         f = S.real("share_to_win", lo_strict=0, hi_strict=1)
-        con = mk_contest(I, id="con", cards=cards, candidates=["W", "L"], winner=["W"], share_to_win=f, tally={"W": tw, "L": tl},
-                         choice_function="SUPERMAJORITY")
+        # the tally may hold names that are not candidates of the contest (write-ins): ballots for them are not valid votes
+        con = mk_contest(I, id="con", cards=cards, candidates=["W", "L"], winner=["W"], share_to_win=f,
+                         tally={"W": tw, "L": tl, "write-in": S.integer("tally_write_in", lo=0, hi=cards)}, choice_function="SUPERMAJORITY")
         fn = I.get(MOD, "Assertion.make_supermajority_assertion")
         r, exc = guard(S, I, lambda: I.call(fn, [], {"contest": con, "share_to_win": f, "winner": "W", "loser": ["L"]}))
         if exc:
@@ -2025,6 +2029,9 @@ def make_all_assertions_post(S, I, variant):
         S.holds("exactly one assertion per (winner, loser) pair; winners are never losers", isinstance(asns, dict) and set(asns.keys()) == want)
         if not isinstance(asns, dict) or set(asns.keys()) != want:
             return
+        tests = [a_.attrs.get("test") for a_ in asns.values()]
+        S.holds("every assertion has a test object of its own (its bound is installed per assertion)",
+                all(t_ is not None for t_ in tests) and len({id(t_) for t_ in tests}) == len(tests))
         card = rec_card(S, "card", sym_cvr(I, "card", {"con": cands}))
         for w in winners:
             for l in losers:
